@@ -93,19 +93,19 @@ R("patterns-precompiled",
 # dump() writes through a temporary file and renames it into place on success
 R("atomic-dump",
   (CM, '''        with open_file_obj(f, "w") as f:
-            self.build_file(parser, f)
+            f.write(text.getvalue())
 ''', '''        if isinstance(f, six.string_types) and not f.startswith(("http://", "https://", "ftp://")):
             tmp = "%s.tmp%d" % (f, os.getpid())
             try:
                 with open(tmp, "w") as fo:
-                    self.build_file(parser, fo)
+                    fo.write(text.getvalue())
                 os.rename(tmp, f)
             finally:
                 if os.path.exists(tmp):
                     os.unlink(tmp)
             return
         with open_file_obj(f, "w") as f:
-            self.build_file(parser, f)
+            f.write(text.getvalue())
 '''))
 
 # get_variants collects with a helper generator, then sorts
